@@ -1,6 +1,7 @@
 package lua
 
 import (
+	"bufio"
 	"fmt"
 	"io"
 	"os"
@@ -212,7 +213,14 @@ func baseLoadFile(L *LState) int {
 		}
 		defer reader.(*os.File).Close()
 	}
-	return loadaux(L, reader, chunkname)
+	// like LoadFile and dofile: a first line starting with '#' is not part of the chunk
+	breader := bufio.NewReader(reader)
+	if err := skipFirstCommentLine(breader); err != nil {
+		L.Push(LNil)
+		L.Push(LString(err.Error()))
+		return 2
+	}
+	return loadaux(L, breader, chunkname)
 }
 
 func baseLoadString(L *LState) int {
